@@ -48,6 +48,15 @@ Theorem C12_no_response_after_all_tries : forall n s tau cancel ds,
 Proof. exact no_response_uses_all_tries. Qed.
 Print Assumptions C12_no_response_after_all_tries.
 
+(** a response accepted after k transmissions arrived before the deadline of try k, T(2^k - 1) after the start,
+    and those k transmissions are exactly the first k of the schedule *)
+Theorem C12_accepted_within_its_try : forall n s tau cancel close ds,
+  result (run_call false n s tau cancel close ds) = Got ->
+  let r := run_call false n s tau cancel close ds in
+  transmissions r = sched (length (transmissions r)) s tau /\ end_time r < endt (length (transmissions r)) s tau.
+Proof. exact got_within_try. Qed.
+Print Assumptions C12_accepted_within_its_try.
+
 (** the pinned tree (timer re-armed by every rejected datagram) violated the schedule: T = 50, n = 2,
     a rejected datagram every 20 ms gives transmissions at 0 and 4050 and failure at 4150 *)
 Theorem C12_refuted_on_pinned_code :
